@@ -199,6 +199,9 @@ pub enum Op {
     Reopen { wait_merges: bool },
     /// switch the merge policy of the live writer (eager LogMergePolicy / NoMergePolicy)
     SetPolicy(bool),
+    /// prepare_commit() and drop the PreparedCommit: flushes the pending documents into
+    /// uncommitted segments without committing anything
+    PrepDrop,
 }
 
 impl Op {
@@ -226,6 +229,7 @@ impl Op {
             Op::Reopen { wait_merges: false } => "reopen-drop",
             Op::SetPolicy(true) => "policy-log",
             Op::SetPolicy(false) => "policy-none",
+            Op::PrepDrop => "prepare+drop",
         }
     }
     pub fn brief(&self) -> Value {
@@ -250,8 +254,8 @@ pub struct GenCfg {
     pub len: usize,
     pub groups: u64,
     /// relative weights: add, delete_term, delete_query, batch, delete_all, commit, prepcommit,
-    /// rollback, merge, gc, reopen, cutter, set-policy
-    pub w: [u32; 13],
+    /// rollback, merge, gc, reopen, cutter, set-policy, prepare+drop
+    pub w: [u32; 14],
     pub allow_delete_all: bool,
     pub final_commit: bool,
 }
@@ -261,7 +265,7 @@ impl GenCfg {
         GenCfg {
             len,
             groups: 4,
-            w: [40, 10, 6, 6, 2, 10, 3, 3, 5, 2, 2, 2, 2],
+            w: [40, 10, 6, 6, 2, 10, 3, 3, 5, 2, 2, 2, 2, 2],
             allow_delete_all: true,
             final_commit: true,
         }
@@ -386,6 +390,7 @@ impl HistGen {
                     wait_merges: rng.bool(),
                 }),
                 12 => ops.push(Op::SetPolicy(rng.bool())),
+                13 => ops.push(Op::PrepDrop),
                 _ => {
                     let mut d = self.doc(rng, cfg.groups);
                     d.pad = CUTTER_PAD;
@@ -1182,6 +1187,19 @@ impl Exec {
                 match r {
                     Ok(_) => Exec::ok(),
                     Err(e) => self.api_err("garbage_collect_files", e.to_string()),
+                }
+            }
+            Op::PrepDrop => {
+                self.ev("call:prepare_commit", "drop");
+                let r = self.writer.as_mut().unwrap().prepare_commit().map(|pc| pc.opstamp());
+                self.ev("ret:prepare_drop", if r.is_ok() { "ok" } else { "err" });
+                match r {
+                    Ok(s) => {
+                        // the stamp drawn for the abandoned commit is larger than every earlier op
+                        self.op_stamps.push(s);
+                        Exec::ok()
+                    }
+                    Err(e) => self.api_err("prepare_commit", e.to_string()),
                 }
             }
             Op::SetPolicy(log) => {
